@@ -37,8 +37,8 @@ using namespace coloquinte;
 
 struct E2E {
   vh::Out &out;
-  std::string pfx;  // prefix of the counters: pfx + "" (Circuit::placeDetailed) or "dir_" (passes driven directly)
-  explicit E2E(vh::Out &o, const std::string &prefix = pfx + "") : out(o), pfx(prefix) {}
+  std::string pfx;  // prefix of the counters: "e2e_" (Circuit::placeDetailed) or "dir_" (passes driven directly)
+  explicit E2E(vh::Out &o, const std::string &prefix = "e2e_") : out(o), pfx(prefix) {}
 
   void run(const std::string &id, const Circuit &input, const vd::Params &prm) {
     run(id, input, prm, vd::runCase(input, prm));
@@ -66,8 +66,8 @@ struct E2E {
     }
     out.count(pfx + "detailed_" + r.detailedStatus);
     if (r.detailedStatus != "ok") {
-      out.fail(id, "placeDetailed fails (" + r.detailedStatus + ": " + r.detailedWhat +
-                       ") on a circuit that legalize alone accepts", inp);
+      out.fail(id, std::string(pfx == "e2e_" ? "placeDetailed" : "a DetailedPlacer pass driven directly") + " fails (" +
+                       r.detailedStatus + ": " + r.detailedWhat + ") on a circuit that legalize alone accepts", inp);
       return;
     }
     if (r.callbacks.empty()) {
@@ -205,18 +205,38 @@ static vd::Run directPasses(const Circuit &input, const vd::Params &prm, const s
                             int timeoutSec = 120) {
   vd::Run r;
   std::string txt, diag;
-  std::string st = vh::isolated(
+  // ---- phase 1: Circuit::legalize alone (as vd::runCase does): a crash in there is not ours
+  r.legalizeStatus = vh::isolated(
       [&](std::ostream &os) {
         vd::silenceStdout();
         Circuit c = input;
         try {
           c.legalize(prm.p);
+          os << "ok\n" << vd::snapLine(vd::snapshot(c)) << "\n";
         } catch (const std::exception &e) {
-          os << "legalize " << vc::exClass(e) << "\n";
-          return;
+          os << vc::exClass(e) << "\n";
         }
-        os << "legalize ok\n";
-        os << "legalized " << vd::snapLine(vd::snapshot(c)) << "\n";
+      },
+      txt, timeoutSec, &diag);
+  if (r.legalizeStatus == "ok") {
+    std::istringstream is(txt);
+    std::string l1, l2;
+    std::getline(is, l1);
+    if (l1 == "ok") {
+      std::getline(is, l2);
+      vd::parseSnap(l2, r.legalized);
+    } else r.legalizeStatus = l1;
+  }
+  if (r.legalizeStatus != "ok") {
+    r.detailedStatus = "skipped";
+    return r;
+  }
+  // ---- phase 2: legalize again, then the passes
+  std::string st = vh::isolated(
+      [&](std::ostream &os) {
+        vd::silenceStdout();
+        Circuit c = input;
+        c.legalize(prm.p);
         std::vector<std::string> log;
 #ifdef COLOQUINTE_VERIF_DETAILED_OPLOG
         vd::oplogSink() = &log;
@@ -270,24 +290,20 @@ static vd::Run directPasses(const Circuit &input, const vd::Params &prm, const s
         for (auto &l : log) os << "log " << l << "\n";
       },
       txt, timeoutSec, &diag);
-  r.legalizeStatus = "unknown";
   r.detailedStatus = st;
   if (st != "ok") {
-    // the child died: legalization alone is C01's business, everything after it is ours — tell them apart
     r.detailedWhat = diag.size() > 600 ? diag.substr(diag.size() - 600) : diag;
+    return r;
   }
   std::istringstream is(txt);
   std::string line;
   while (std::getline(is, line)) {
     if (line == "hook") r.hasHook = true;
-    else if (line.rfind("legalize ", 0) == 0) r.legalizeStatus = line.substr(9);
-    else if (line.rfind("legalized ", 0) == 0) vd::parseSnap(line.substr(10), r.legalized);
     else if (line.rfind("status ", 0) == 0) r.detailedStatus = line.substr(7);
     else if (line.rfind("what ", 0) == 0) r.detailedWhat = line.substr(5);
     else if (line.rfind("cb ", 0) == 0) { vd::Snap s; vd::parseSnap(line.substr(3), s); r.callbacks.push_back(s); }
     else if (line.rfind("log ", 0) == 0) r.oplog.push_back(line.substr(4));
   }
-  if (st != "ok" && r.legalizeStatus == "unknown") r.legalizeStatus = st;  // died inside legalize (vh::isolated buffers)
   if (!r.callbacks.empty()) r.final = r.callbacks.back();
   return r;
 }
@@ -624,7 +640,12 @@ int main(int argc, char **argv) {
       "non-default stream with reordering and wide windows on every other case); legalize alone, then placeDetailed "
       "with a callback; non-trivial = detailed placement changed the placement after legalization.  p<k>: "
       "DetailedPlacement from a legalized circuit + 40 random public-API operations (swap/insert/unplace+place/"
-      "shift/reorder/check probes); non-trivial = at least one mutating operation succeeded.  distinct by input text";
+      "shift/reorder/check probes); non-trivial = at least one mutating operation succeeded.  d<k>: legalize, then a "
+      "DetailedPlacer on the legalized circuit and 2..6 of its public passes driven directly with arbitrary window "
+      "arguments (runSwaps, runInserts — never called by run() —, runShifts, runReordering, runSwapsOneRow, "
+      "runInsertsOneRow, runSwapsTwoRows(Amplify), runInsertsTwoRows, runShiftsOnRows): check() and the exported "
+      "placement after every pass, same oracle and same history replay as e<k>; non-trivial = a pass changed the "
+      "placement.  distinct by input text";
   const bool exhOnly = getenv("C02_EXH_ONLY") != nullptr;  // hidden development switch: only the stream x<k>, in any tier
   if (exhOnly || a.thorough())
     out.rule +=
@@ -654,6 +675,7 @@ int main(int argc, char **argv) {
         "moves, x_nodes_remaining_1..3).  check/inv are asked of the model the first time a move produces a given state "
         "line in an instance.  evaluations += expanded nodes; non-trivial = instance with at least one feasible move";
   E2E e2e(out);
+  E2E dir(out, "dir_");
   Prim prim(out);
 
   auto runText = [&](const std::string &id, const std::string &text) {
@@ -669,8 +691,14 @@ int main(int argc, char **argv) {
   if (!a.replay.empty()) {
     std::string text = vd::jsonField(vd::readFile(a.replay), "input");
     if (text.empty()) text = vd::readFile(a.replay);
+    std::vector<Pass> passes;
     if (c02x::isReplayText(text)) c02x::replay(out, text);
-    else runText("replay", text);
+    else if (parsePasses(text, passes)) {
+      Circuit c(0);
+      vd::Params p;
+      if (vd::parseCase(text, c, p)) dir.run("replay", c, p, directPasses(c, p, passes), passesString(passes));
+      else out.notes.push_back("could not parse case replay");
+    } else runText("replay", text);
     out.finish();
     return 0;
   }
@@ -691,6 +719,7 @@ int main(int argc, char **argv) {
   }
   long long nE = a.thorough() ? 30000 : (a.search() ? 12000 : 1600);
   long long nP = a.thorough() ? 20000 : (a.search() ? 0 : 1200);
+  long long nD = a.thorough() ? 20000 : (a.search() ? 6000 : 1200);
   // The forked part of every case (legalize / placeDetailed / the primitive operations under the
   // sanitizers) runs in worker processes on all cores; the parent consumes the results in case order,
   // so ops.txt / impl.txt / oracle.txt / stats.json are those of a sequential run.
@@ -756,6 +785,36 @@ int main(int argc, char **argv) {
           out.count("prim_recomputed_in_parent");
           prim.run("p" + std::to_string(k), c, p, g, nOps);
         }
+      }
+    }
+    {
+      auto dirCase = [&](long long k, Circuit &c, vd::Params &p, std::vector<Pass> &passes) {
+        vh::Rng g = vh::Rng::forCase(a.seed ^ 0xd12ec7u, k);
+        vc::GenOpts o = optsFor(g, k);
+        c = vc::genCircuit(g, o);
+        p = vd::genParams(g, k % 2 == 1);
+        passes = genPasses(g);
+      };
+      vd::ParallelBlobs par(a.out + "/par-d-", nD, jobs, [&](long long k) {
+        Circuit c(0);
+        vd::Params p;
+        std::vector<Pass> passes;
+        dirCase(k, c, p, passes);
+        return vd::serializeRun(directPasses(c, p, passes));
+      });
+      for (long long k = 0; k < nD; ++k) {
+        Circuit c(0);
+        vd::Params p;
+        std::vector<Pass> passes;
+        dirCase(k, c, p, passes);
+        std::string blob;
+        vd::Run r;
+        if (!(par.get(k, blob) && vd::parseRun(blob, r))) {
+          out.count("dir_recomputed_in_parent");
+          r = directPasses(c, p, passes);
+        }
+        for (auto &ps : passes) out.count(std::string("dir_pass_") + passName(ps.kind));
+        dir.run("d" + std::to_string(k), c, p, r, passesString(passes));
       }
     }
   }
